@@ -20,6 +20,7 @@ CLAUSE = CLAUSE + (" cache_network_add_page updates the subpage range the page w
                    "is case-folded from itself.")
 CLAUSE = CLAUSE + (" (RF-CMP) every comparison of the current position with the stop position is inclusive in the walk direction "
                    "(forward >=, backward <=).")
+CLAUSE = CLAUSE + (" (RF-WIDTH) the subpage range the walk iterates over is stored in fields wide enough for every subcode.")
 NOT_DECIDED = ("that exactly the matching pages are found, in order, each once (values); the regex engine's matching semantics; "
                "haystack construction.")
 
@@ -92,6 +93,9 @@ def run(ctx, run):
     _casefold_endpoints(ctx, run)
     _restart_inside_failed_attempt(ctx, run)
     _stop_inclusive(ctx, run)
+    # the walk visits the subpage range the statistics recorded: the range must not be truncated (shared with C10)
+    from . import C10
+    C10._subno_range_fits(ctx, run)
 
 
 def _metachars(ctx, run):
